@@ -810,6 +810,13 @@ class C09(fw.Check):
         out += [{"t": [True, True]}, {"l": [True, True]}, {"t": [True, False]}, {"t": [False, True]},
                 {"t": [False, False]}, {"t": [True, 5]}, {"t": [True, 1]}, {"t": [1, True]}, {"l": [None, True]},
                 {"l": [True, 3]}, {"t": [False, 3]}, {"t": [3, True]}]
+        # wrong-length tuples / lists over falsy and truthy items (session 3, after seeded change C09-M:
+        # a sequence of length 1 or 3 whose items are all falsy must raise like any other wrong length)
+        witems = [None, 0, False, "", 1, 2]
+        for tag in ("t", "l"):
+            out += [{tag: [a]} for a in witems]
+            out += [{tag: [a, b, c]} for a in witems[:5] for b in witems[:5] for c in (None, 0, 1)]
+            out += [{tag: [None, None, None, None]}, {tag: [0, 0, 0, 0]}, {tag: [0, 1, 2, 3]}, {tag: [None] * 5}]
         nbig = 40 if tier == "quick" else 400
         for _ in range(nbig):
             a = rng.choice([None, rng.randrange(0, 10 ** rng.randrange(1, 30))])
